@@ -697,3 +697,138 @@ def output_buffer_index_guarded(ctx, P):
         ctx.check('%s:read:output-index-guarded:%s' % (P, p), 'R-dom', '%s indexes the caller\'s buffer only behind a test involving that buffer\'s length or the count read into it' % p.split(' as ')[0].lstrip('<'),
                   not bad, function=p, sites=[site(b, i) for i in sites_], missing=['%s: no dominating test of the output buffer (a zero-length read request indexes out of bounds)' % site(b, i) for i in bad] or None)
     ctx.floor(P + ':read:output-index:floor', 'Read::read implementations that index their output buffer', n, 2)
+
+
+def _err_successors(b, c, defs):
+    """Blocks entered exactly when the Result produced by the call terminator of block c is an error: the `Err` / `Break` edge of a
+    discriminant switch on that result (directly, or through `Try::branch`), or the matching edge of a switch on `is_err()` / `is_ok()`.
+    None when the result is not examined in this body (it is handed on as it is)."""
+    t = b.blocks[c]['t']
+    if t['d']['pr']:
+        return None
+    carriers = {t['d']['l']}
+    out = []
+    seen_switch = False
+    for _ in range(4):
+        grew = False
+        for i, blk in enumerate(b.blocks):
+            if blk['c']:
+                continue
+            for s in blk['s']:
+                r = s['r']
+                if s['d']['pr']:
+                    continue
+                if r['k'] in ('use', 'ref', 'copyderef'):
+                    src = r['o'][0] if r['k'] == 'use' else r['p']
+                    if 'l' in src and src['l'] in carriers and not [x for x in src['pr'] if x != '*'] and s['d']['l'] not in carriers:
+                        carriers.add(s['d']['l']); grew = True
+            tt = blk['t']
+            if tt['k'] == 'call' and not tt['d']['pr'] and tt['args'] and 'l' in tt['args'][0] and tt['args'][0]['l'] in carriers \
+                    and re.search(r'Try::branch$', tt['f'].get('fn', '') or '') and tt['d']['l'] not in carriers:
+                carriers.add(tt['d']['l']); grew = True
+        if not grew:
+            break
+    for i, tt in b.switches():
+        info = enum_switch_info(b, i)
+        if info and info[2]['l'] in carriers:
+            seen_switch = True
+            for j, _ in b.succ(i):
+                vs = edge_variants(b, i, j) or []
+                if vs and set(vs) <= {'Err', 'Break'}:
+                    out.append(j)
+            continue
+        if tt.get('ty') == 'bool' and 'l' in tt['o']:
+            d = defs.get(tt['o']['l'])
+            if d and d[1].get('k') == 'call' and d[1]['args'] and 'l' in d[1]['args'][0] and d[1]['args'][0]['l'] in carriers:
+                m = re.search(r'Result::<.*>::(is_err|is_ok)$', d[1]['f'].get('fn', '') or '')
+                if m:
+                    seen_switch = True
+                    want = 1 if m.group(1) == 'is_err' else 0
+                    hit = [bb for v, bb in tt['targets'] if (1 if v else 0) == want]
+                    out += hit if hit else [tt['else']]
+    return sorted(set(out)) if seen_switch else None
+
+
+def grown_stage_emptied_on_failed_fill(ctx, P):
+    """A reader that hands out whatever its stage buffer holds (`remaining()` octets) and that grows this buffer to full size BEFORE it
+    reads the source into it (`buffer.resize(n, 0); fill(source, buffer)?`) must not return an error while the buffer is still grown:
+    the next `read` would find a non-empty stage and hand out its raw content (source octets that were never transformed, followed by
+    the zero fill) as if it were output, and the stream would then go on.  On every way from the growth to an error exit the stage is
+    emptied (`clear`) or the whole state is replaced (`*self = ..` / `mem::replace(self, ..)`); an error that is only handed on is
+    followed into the callers within the type, where the error edge of the call has to do the same."""
+    from rules.common import single_defs
+    from rules.c19 import _root_place
+    import callgraph
+    n = 0
+    edges = callgraph.build(ctx.f)
+    callers = {}
+    for p, qs in edges.items():
+        for q in qs:
+            callers.setdefault(q, set()).add(p)
+
+    def repairs_of(b, defs, rp):
+        rep = set()
+        for i, t in b.calls(r'(BytesMut|Vec::<.*>)::clear$'):
+            if t['args'] and _root_place(b, t['args'][0], defs) == rp:
+                rep.add(i)
+        for i, t in b.calls(r'mem::(replace|take|swap)$'):
+            if t['args'] and _root_place(b, t['args'][0], defs) in ((1, ()),):
+                rep.add(i)
+        for i, k, st in b.stmts(lambda st: st['d']['l'] == 1 and st['d']['pr'] == ['*']):
+            rep.add(i)
+        return rep
+
+    for p, r in sorted(ctx.f.bodies.items()):
+        if '::tests::' in p or r['nargs'] < 1:
+            continue
+        b0 = ctx.wrap(r)
+        grows = b0.calls(r'(BytesMut|Vec::<.*>)::resize$')
+        if not grows:
+            continue
+        defs0 = single_defs(b0)
+        for g, t in grows:
+            rp = _root_place(b0, t['args'][0], defs0) if t['args'] else None
+            if rp is None or rp[0] != 1 or not rp[1]:
+                continue            # a local buffer is not seen by the next call
+            n += 1
+            # level 0: the function that grows the stage
+            rep = repairs_of(b0, defs0, rp)
+            start = [t.get('t')] if t.get('t') is not None else []
+            region = b0.reach_from(start, removed=frozenset(rep))
+            bad = sorted(region & set(err_exit_blocks(b0)))
+            wit = None
+            if bad:
+                # followed into the callers: the error edge of every call of this function clears the stage
+                work = [(p, 0)]
+                seen = {p}
+                escaped = []
+                while work:
+                    q, depth = work.pop()
+                    cs = sorted(c for c in callers.get(q, ()) if '::tests::' not in c)
+                    if not cs or depth >= 3:
+                        escaped.append((q, None))
+                        continue
+                    for c in cs:
+                        bc = ctx.wrap(ctx.f.bodies[c])
+                        dc = single_defs(bc)
+                        repc = repairs_of(bc, dc, rp)
+                        for ci, ct in bc.calls():
+                            if (ct['f'].get('res') or ct['f'].get('fn')) != q:
+                                continue
+                            es = _err_successors(bc, ci, dc)
+                            if es is None:
+                                # handed on as it is
+                                if c not in seen:
+                                    seen.add(c); work.append((c, depth + 1))
+                                continue
+                            reg = bc.reach_from(es, removed=frozenset(repc))
+                            if reg & set(bc.returns()):
+                                escaped.append((c, site(bc, ci)))
+                if escaped:
+                    wit = escaped
+            ctx.check('%s:S09-10:grown-stage-emptied-on-failed-fill:%s' % (P, p), 'R-pair',
+                      'no error leaves %s (or its callers within the type) with the stage buffer still grown to full size and not yet transformed' % p.split('::')[-1],
+                      wit is None, function=p, site=site(b0, bad[0]) if bad else site(b0, g), count=len(bad),
+                      missing=None if wit is None else 'the error exit at %s is reached from the growth at %s with the buffer neither cleared nor the state replaced%s: the next read hands out the raw buffer'
+                      % (site(b0, bad[0]), site(b0, g), '' if not wit[0][1] else ' (also past the call at %s in %s)' % (wit[0][1], wit[0][0].split('::')[-1])))
+    ctx.floor(P + ':S09-10:floor', 'stage buffers of self grown before the source is read', n, 2)
